@@ -84,6 +84,7 @@ func (c *Collection) writeWithMeta(key string, body []byte, xattrs []byte, oldCa
 		return err
 	}
 	if e != nil {
+		verifPoint("cas.beforePost", c.bucket.name, e.key, e.cas)
 		c.postNewEvent(e)
 	}
 	return nil
